@@ -342,7 +342,12 @@ Inductive t_secret := SNone | SRight | SWrong | SPrefix1 | SPrefixAll | SSuffix 
    MSoon60s: ExpiresAt 60 s AFTER the request (still valid) *)
 Inductive t_mstate := MActive | MRevoked | MExpired | MInactive | MMissing | MExp25s | MExp10s | MExp2s | MExp1ms | MSoon60s.
 Inductive t_tstate := TNone | TWaiting | TServed | TRemote.
-Record cell := { ce_id : t_id; ce_mid : t_mid; ce_secret : t_secret; ce_resume : bool; ce_mstate : t_mstate; ce_tstate : t_tstate }.
+(* who the parties of the mappings are: two clients (PNormal), or a SERVER-SIDE LISTENER: stored listening client id 0 (PListen0, e.g.
+   HTTP-domain mappings created through the management API), or no target client: stored target client id 0 (PTarget0).
+   An unauthenticated connection also carries client id 0 — it must never count as "the party with id 0". *)
+Inductive t_party := PNormal | PListen0 | PTarget0.
+Record cell := { ce_id : t_id; ce_mid : t_mid; ce_secret : t_secret; ce_resume : bool; ce_mstate : t_mstate; ce_tstate : t_tstate;
+                 ce_party : t_party }.
 
 (* concrete names used for the abstraction of a cell: clients L=11 T=12 S=13 X=14; mappings M1=1 (the tunnel's), M2=2
    (another one, on which the requester is the listening client); secrets K1=101 K2=102, wrong=999; tunnel 7; nodes 1 (self) 2 *)
@@ -361,8 +366,10 @@ Definition mk_mapping (l t : client) (k : key) (st : t_mstate) : option mapping 
 Definition cell_db (c : cell) : db :=
   let named_other := match ce_mid c with MidOther => true | _ => false end in
   let own := match ce_id c with IdNone | IdHalf => 13 | _ => cell_client c end in
-  fun m => if N.eqb m 1 then mk_mapping 11 12 101 (if named_other then MActive else ce_mstate c)
-           else if N.eqb m 2 then mk_mapping own 14 102 (if named_other then ce_mstate c else MActive)
+  let lis (l : client) := match ce_party c with PListen0 => 0 | _ => l end in
+  let tgt (t : client) := match ce_party c with PTarget0 => 0 | _ => t end in
+  fun m => if N.eqb m 1 then mk_mapping (lis 11) (tgt 12) 101 (if named_other then MActive else ce_mstate c)
+           else if N.eqb m 2 then mk_mapping (lis own) (tgt 14) 102 (if named_other then ce_mstate c else MActive)
            else None.
 Definition cell_req (c : cell) : request :=
   {| r_mid := match ce_mid c with MidNone => 0 | MidTunnel => 1 | MidOther => 2 end;
@@ -397,10 +404,20 @@ Definition all_mids := [MidNone; MidTunnel; MidOther].
 Definition all_secrets := [SNone; SRight; SWrong; SPrefix1; SPrefixAll; SSuffix; SPlus; SCase; SOneChar; SOther].
 Definition all_mstates := [MActive; MRevoked; MExpired; MInactive; MMissing; MExp25s; MExp10s; MExp2s; MExp1ms; MSoon60s].
 Definition all_tstates := [TNone; TWaiting; TServed; TRemote].
-Definition all_cells : list cell :=
+Definition cells_of (p : t_party) (ids : list t_id) (mids : list t_mid) (secs : list t_secret) (ress : list bool)
+                    (mss : list t_mstate) (tss : list t_tstate) : list cell :=
   flat_map (fun i => flat_map (fun m => flat_map (fun s => flat_map (fun r => flat_map (fun ms =>
-    map (fun ts => {| ce_id := i; ce_mid := m; ce_secret := s; ce_resume := r; ce_mstate := ms; ce_tstate := ts |}) all_tstates)
-    all_mstates) [false; true]) all_secrets) all_mids) all_ids.
+    map (fun ts => {| ce_id := i; ce_mid := m; ce_secret := s; ce_resume := r; ce_mstate := ms; ce_tstate := ts; ce_party := p |}) tss)
+    mss) ress) secs) mids) ids.
+(* the full table for ordinary mappings, plus the party dimension on a sub-table (4 secrets, 3 mapping states, no resume token,
+   tunnel states none / waiting / remote) *)
+Definition party_secrets := [SNone; SRight; SWrong; SPrefix1].
+Definition party_mstates := [MActive; MRevoked; MMissing].
+Definition party_tstates := [TNone; TWaiting; TRemote].
+Definition all_cells : list cell :=
+  cells_of PNormal all_ids all_mids all_secrets [false; true] all_mstates all_tstates ++
+  cells_of PListen0 all_ids all_mids party_secrets [false] party_mstates party_tstates ++
+  cells_of PTarget0 all_ids all_mids party_secrets [false] party_mstates party_tstates.
 
 (* the specification's verdict on a cell: an attachment needs entitlement, and whoever is not entitled gets a failure ack *)
 Definition cell_ok (v : variant) (c : cell) : bool :=
